@@ -82,6 +82,11 @@ def alphabet(shape, names, block_sizes=(0,), seed=0):
       for v in vecs:
         g = np.multiply.outer(g, v)
       out[n] = g.astype(np.float32)
+    elif n == "gD":   # scale-disparate: trailing half of axis 0 times 2^-14
+      g = ga.copy()
+      if g.ndim >= 1 and g.shape[0] >= 2:
+        g[g.shape[0] // 2:] *= np.float32(2.0**-14)
+      out[n] = g
     elif n == "gS+":
       out[n] = (ga * np.float32(2.0**20)).astype(np.float32)
     elif n == "gS-":
@@ -117,7 +122,8 @@ def tree_alphabet(shapes, names, block_sizes=(0,), seed=0):
     for i, (k, s) in enumerate(sorted(shapes.items())):
       g = per_leaf[k][n]
       if n in ("gA", "gB", "gSeed") and i % 2 == 1:
-        g = np.ascontiguousarray(-g[::-1] if g.ndim else -g)
+        g = np.array(-g[::-1] if g.ndim else -g, dtype=g.dtype).reshape(
+            g.shape)
       tree[k] = g
     out[n] = tree
   return out
